@@ -978,15 +978,18 @@ regp_process(RegP *p, const RPMaybeFrame *mf)
          * block's memory after the header in order to store the return data
          * from the memory implementation. This removes the requirement of
          * allocating again, and eliminates some block memory waste. */
+        /* The answer is stored behind the request's header in the block. */
+        const size_t room = p->alloc->blocksize
+            - (size_t)((unsigned char*)buf - (unsigned char*)mf->frame);
         if (p->memory.type == RP_MEMTYPE_16) {
-            const size_t maxsize = (p->alloc->blocksize - sizeof(RPFrame)) / 2;
+            const size_t maxsize = room / 2;
             if (maxsize < blocksize) {
                 ba.status = RP_RESP_ETXOVERFLOW;
             } else {
                 ba = p->memory.access.m16.read(addr, blocksize, buf);
             }
         } else {
-            const size_t maxsize = p->alloc->blocksize - sizeof(RPFrame);
+            const size_t maxsize = room;
             if (maxsize < blocksize) {
                 ba.status = RP_RESP_ETXOVERFLOW;
             } else {
